@@ -418,6 +418,12 @@ class FTPProcessorSession(BaseProcessorSession):
         '''Make a symlink on the system.'''
         path = self._file_writer_session.extra_resource_path('dummy')
 
+        if not link_target:
+            # A listing can name a link without telling where it points
+            # (MLSD 'type=symlink; name').
+            _logger.debug('No target for symlink {}.', link_name)
+            return
+
         if path:
             dir_path = os.path.dirname(path)
             symlink_path = os.path.join(dir_path, link_name)
